@@ -379,7 +379,7 @@ class CutFocused(Part):
     connection-loss / callback-registration functions x every alternative thread (delay and yield)"""
 
     name = "cut-focused"
-    budget = {"quick": 32, "thorough": 1000}
+    budget = {"quick": 32, "thorough": 250}
     min_per_shard = 2
 
     def setup(self, ctx):
